@@ -45,6 +45,9 @@ PROP = dict(
         dict(name="batch4", pkg="c03", run="^TestC03_Batch$", shards=G2_E4, checks=(12, 60), timeout=(900, 3600), seeds=(2, 3)),
         dict(name="edmul", pkg="c03", run="^TestC03_EdMul$", shards=EDWARDS, checks=(400, 6000), timeout=(900, 3600)),
         dict(name="regress", pkg="c03", run="^TestC03_Regress", rapid=False),
+        # scalar multiplication as the FIRST use of an Edwards package in a fresh process (lazily initialised curve parameters): every
+        # point method, ScalarMultiplication included, cold vs warm vs reference (test shared with C02/C18)
+        dict(name="coldstart-edwards", pkg="c02/uninit", run="^TestC02_ColdStart$", rapid=False),
         # white-box (optional): mulGLV against mulWindowed on the same inputs
         dict(name="wb.bn254", kind="overlay", pkg="ecc/bn254", run="^TestVerifC03_", checks=(300, 5000), optional=True),
         dict(name="wb.bls12-381", kind="overlay", pkg="ecc/bls12-381", run="^TestVerifC03_", checks=(200, 3000), optional=True),
